@@ -100,8 +100,9 @@ class RuleCtx:
         if hasattr(line, "lineno"):
             line = line.lineno
         ftxt = str(found)
-        foreign = self._foreign_combinators(site)
+        foreign = self._foreign_combinators(site) if getattr(self, "reformulable", False) else set()
         if foreign:
+            # (only for rules that opt in - pure shape templates of a small sequence algorithm)
             # the function was re-formulated with an iteration combinator the reference formulation does not use: the rule's
             # template describes the reference formulation, so a mismatch says nothing about behaviour - undecided, not a verdict
             self.obls.append(Obligation(self.rd.property_id, self.rd.rid, self.rd.kind, q, "error",
